@@ -135,6 +135,15 @@ fn step(line: &str, st: &mut Streams) -> Option<i32> {
                 let _ = std::fs::write(&outfile, body);
             }
         }
+        "bg" => {
+            // "<ms>": leave a background process behind that keeps this process's stdout and stderr
+            // open for that long (a daemon or `sleep 3 &` started without redirecting its output)
+            let ms: u64 = arg.parse().unwrap_or(0);
+            let _ = std::process::Command::new("sleep")
+                .arg(format!("{}.{:03}", ms / 1000, ms % 1000))
+                .stdin(std::process::Stdio::null())
+                .spawn();
+        }
         "exit" => return Some(arg.parse().unwrap_or(0)),
         _ => {}
     }
